@@ -1,8 +1,8 @@
 package vk
 
 import (
-	"encoding/json"
 	"encoding/base64"
+	"encoding/json"
 	"errors"
 	"fmt"
 	"math"
@@ -18,7 +18,7 @@ import (
 // EV is the expected decoded value of one logged value, built from the generator's own knowledge
 // of what was logged (never from the library's output).
 type EV struct {
-	K       byte   // 'n' null, 'b' bool, 'i' integer (exact text), 'f' finite float (bits), 's' string, 'a' array, 'o' object, 'x' any JSON string (non-finite float / unmarshallable)
+	K       byte // 'n' null, 'b' bool, 'i' integer (exact text), 'f' finite float (bits), 's' string, 'a' array, 'o' object, 'x' any JSON string (non-finite float / unmarshallable)
 	B       bool
 	Txt     string
 	Bits    uint64
@@ -35,11 +35,11 @@ type EM struct {
 	Unquote bool
 }
 
-func evNull() EV            { return EV{K: 'n'} }
-func evBool(b bool) EV      { return EV{K: 'b', B: b} }
-func evInt(v int64) EV      { return EV{K: 'i', Txt: strconv.FormatInt(v, 10)} }
-func evUint(v uint64) EV    { return EV{K: 'i', Txt: strconv.FormatUint(v, 10)} }
-func evStr(s string) EV     { return EV{K: 's', S: s} }
+func evNull() EV         { return EV{K: 'n'} }
+func evBool(b bool) EV   { return EV{K: 'b', B: b} }
+func evInt(v int64) EV   { return EV{K: 'i', Txt: strconv.FormatInt(v, 10)} }
+func evUint(v uint64) EV { return EV{K: 'i', Txt: strconv.FormatUint(v, 10)} }
+func evStr(s string) EV  { return EV{K: 's', S: s} }
 func evFloat(v float64) EV {
 	if math.IsNaN(v) || math.IsInf(v, 0) {
 		return EV{K: 'x'}
@@ -902,6 +902,10 @@ func (g *fgen) one(depth int) (log.Field, []EM, string) {
 			ev.Items = append(ev.Items, e)
 		}
 		g.st.Nested++
+		if n == 0 && rapid.IntRange(0, 3).Draw(g.t, "nilArray") == 0 {
+			// no value at all: nil is logged as null, whatever the constructor
+			return one(log.Array(key, nil), evNull(), false, fmt.Sprintf("Array(%q,nil)", key))
+		}
 		return one(log.Array(key, av), ev, false, fmt.Sprintf("Array(%q,custom %s)", key, evDesc(ev)))
 	case 23:
 		kind("Any")
@@ -913,6 +917,23 @@ func (g *fgen) one(depth int) (log.Field, []EM, string) {
 		g.st.Nested++
 		if depth+1 > g.st.MaxDepth {
 			g.st.MaxDepth = depth + 1
+		}
+		if depth == 1 && rapid.IntRange(0, 19).Draw(g.t, "deep") == 0 {
+			// the same object at the bottom of a tower of objects: depth is a number like any other
+			// (around the sizes of the small integer types, among others)
+			d := rapid.SampledFrom([]int{127, 126, 128, 129, 40, 255, 256, 300, 125}).Draw(g.t, "tower")
+			f := log.Object("leaf", sub.Fields...)
+			ev := EV{K: 'o', Members: sub.Exp}
+			name := "leaf"
+			for i := 0; i < d; i++ {
+				ev = EV{K: 'o', Members: []EM{{Key: name, Val: ev}, {Key: "s", Val: evInt(int64(i))}}}
+				f = log.Object("n", f, log.Int("s", i))
+				name = "n"
+			}
+			ev = EV{K: 'o', Members: []EM{{Key: name, Val: ev}}}
+			g.st.MaxDepth = max(g.st.MaxDepth, d)
+			Class(fmt.Sprintf("object-tower:%d", d))
+			return one(log.Object(key, f), ev, false, fmt.Sprintf("Object(%q, tower of %d objects over {%s})", key, d, strings.Join(sub.Desc, "; ")))
 		}
 		return one(log.Object(key, sub.Fields...), EV{K: 'o', Members: sub.Exp}, false, fmt.Sprintf("Object(%q,{%s})", key, strings.Join(sub.Desc, "; ")))
 	case 25:
